@@ -105,6 +105,35 @@ def task_scale_laws(ctx, symbolic_scale):
       settle('scale.dimensionalize_inverts_nondimensionalize', cf, model,
              lambda s_, xv, yv, src=src, dst=dst, conv=conv: (float(s_.dimensionalize(s_.nondimensionalize(xv * u.parse_expression(src)), u.Unit(dst)).magnitude), xv * conv,
                                                               f'round trip {src} -> nondimensional -> {dst}'))
+  # offset units (degC, degF): the round trip through a DIFFERENT compatible unit must honour the offset in both directions
+  offs = [('degC', 'degK', lambda t: t + Q(273.15), lambda v: v + 273.15), ('degK', 'degC', lambda t: t - Q(273.15), lambda v: v - 273.15),
+          ('degF', 'degC', lambda t: (t - Q(32.0)) * Q(5.0 / 9.0), lambda v: (v - 32.0) * 5.0 / 9.0), ('degC', 'degC', lambda t: t, lambda v: v)]
+  for src, dst, ex_t, ex_v in offs:
+    cf = dict(conf0, unit=src, target=dst, offset_units=True)
+    try:
+      nd = sc.nondimensionalize(u.Quantity(X, u.Unit(src)))
+      back = sc.dimensionalize(nd, u.Unit(dst)).magnitude
+    except Exception as e:  # noqa: BLE001
+      # the symbolic run could not go through pint's offset-unit arithmetic: decide on the real code at sampled magnitudes instead (reported as such)
+      worst = 0.0; wv = None
+      for xv in (1e-6, 0.5, 20.0, 293.15, 1e4):
+        got = float(sc.dimensionalize(sc.nondimensionalize(u.Quantity(xv, u.Unit(src))), u.Unit(dst)).magnitude) if not symbolic_scale else None
+        if got is not None and abs(got - ex_v(xv)) > 1e-9 * max(1.0, abs(ex_v(xv))) and abs(got - ex_v(xv)) > worst:
+          worst, wv = abs(got - ex_v(xv)), (xv, got)
+      if wv is not None:
+        ctx.clause('scale.dimensionalize_inverts_nondimensionalize', 'failed', config=cf, queries=0)
+        ctx.violation('scale.dimensionalize_inverts_nondimensionalize', dict(config=cf, kind='scale-law'), dict(inputs=[wv[0]], got=wv[1], expected=ex_v(wv[0])),
+                      f'round trip {wv[0]} {src} -> nondimensional -> {dst} gives {wv[1]}, expected {ex_v(wv[0])}')
+      else:
+        ctx.clause('scale.dimensionalize_inverts_nondimensionalize', 'discharged' if not symbolic_scale else 'inconclusive', config=dict(cf, symbolic_run_raised=f'{type(e).__name__}: {str(e)[:80]}', decided='sampled magnitudes on the real code'), queries=0)
+      continue
+    back_t = back.t if hasattr(back, 't') else Q(back)
+    exp = ex_t(x)
+    ok, model = decide(ctx, 'scale.dimensionalize_inverts_nondimensionalize', cf, pre, z3.Not(_close(back_t, exp, _abs(exp) + Q(1.0))))
+    if not ok and model is not None:
+      settle('scale.dimensionalize_inverts_nondimensionalize', cf, model,
+             lambda s_, xv, yv, src=src, dst=dst, ex_v=ex_v: (float(s_.dimensionalize(s_.nondimensionalize(u.Quantity(xv, u.Unit(src))), u.Unit(dst)).magnitude), ex_v(xv),
+                                                              f'round trip {src} -> nondimensional -> {dst}'))
   # independence of the unit the quantity was expressed in
   for a_, b_ in (('km/hour', 'm/s'), ('hPa', 'Pa'), ('hour', 's'), ('g', 'kg'), ('g/kg', 'dimensionless'), ('degree', 'radian'), ('percent', 'dimensionless')):
     f = float((1.0 * u.parse_expression(a_)).to(b_).magnitude)
